@@ -583,8 +583,10 @@ fn do_insert(w: &Rc<World>, h: u64, spec: &SrcSpec) {
     let code = World::res_code(&res);
     if let Ok(t) = res {
         w.inner.borrow_mut().toks.insert(h, t);
+        w.log(format!("1 1 {} {} {}", h, code, calloop::verif::registration_token_key(&t)));
+    } else {
+        w.log(format!("1 1 {} {}", h, code));
     }
-    w.log(format!("1 1 {} {}", h, code));
 }
 
 fn exec_action(w: &Rc<World>, a: &Action) {
@@ -899,6 +901,7 @@ pub fn run_scenario(scen: Scenario) -> Vec<String> {
     let cmds = w.scen.cmds.clone();
     let r = catch_unwind(AssertUnwindSafe(|| {
         for c in &cmds {
+            w.log("17".to_string());
             match c {
                 Cmd::Act(a) => exec_action(&w, a),
                 Cmd::Dispatch(t) => {
